@@ -35,7 +35,7 @@ ALL_FRONTS = {"smin", "sfull", "push", "ho"}
 
 MC_INV = {
     "C05": ["CompileCorrect", "RenderFaithful", "SharedFetcher", "StepwiseEqualsFold"],
-    "C13": ["NonePropagation", "ZeroWhenConfigured", "SampleEveryTimestamp"],
+    "C13": ["NoneIff", "ZeroWhenConfigured", "SampleAlways"],
 }
 ACTIONS = ["PickStep", "PushOperStep", "PushMetricStep", "PushConstantStep", "FinalizeStep", "RoundStep"]
 
@@ -354,7 +354,7 @@ def _stage(rep: Report, prop: str, name: str, st: dict, work: Path, totals: dict
     sim = st["mode"] == "sim"
     consts = _consts(st, envs, st["mode"])
     cases_file = d / "cases.ndjson"
-    inv = list(MC_INV[prop])
+    inv = list(MC_INV[prop]) + (["LegacyDiffersOnlyByCauses"] if st["cov"] and prop == "C13" else [])
     res = run_tlc("FormulaCompile", d, constants=consts, invariants=inv, env={"OUT_FILE": str(cases_file), **JVM_ENV},
                   coverage=st["cov"], timeout=6000)
     shown = {k: (sorted(v) if isinstance(v, set) else v) for k, v in consts.items() if k not in ("EnvSeq", "Seeds")}
@@ -383,7 +383,8 @@ def _stage(rep: Report, prop: str, name: str, st: dict, work: Path, totals: dict
     if sim:
         rep.exhaustive = False
     _CFG = dict(envs=envs, nm=st["nm"])
-    shards = replay_parallel(_worker, cases, d)
+    # small stages: fewer shards (every shard costs a JVM start in VAL, ~8 CPU seconds)
+    shards = replay_parallel(_worker, cases, d, nproc=max(1, min(16, len(cases) // 150)))
     fails, done, vst = validate_shards("FormulaCompileTrace", shards, d, constants=_consts(st, [], "trace"), heap="4g", extra_env=JVM_ENV)
     rep.validated += done
     # per-trace counters written by TLC with each "done" line: how often each clause's antecedent held
@@ -438,13 +439,16 @@ def _stage(rep: Report, prop: str, name: str, st: dict, work: Path, totals: dict
 
 NEED = {
     "C05": ["c05", "sample"],
-    "C13": ["noneiff", "wantnone", "zero", "twin", "sample", "devminmax", "devdiv0"],
+    # causeminmax / causediv0: inputs on which a min/max step meets a NaN second operand / a division
+    # meets a zero divisor (where the two former defects would show), counted on the CURRENT model
+    "C13": ["noneiff", "wantnone", "zero", "twin", "sample", "causeminmax", "causediv0"],
 }
 NEED_COV = {"C13": [f"{op}:{pos}" for op in sorted(ALL_BIN) for pos in "LR"] + [f"{op}:A" for op in sorted(ALL_UN)]}
 
 
 def run(prop: str, tier: str) -> int:
     tm = Timer()
+    t_cpu = os.times()
     rep = Report(prop, tier)
     work = scratch(f"{prop}_{tier}")
     rep.assumptions = [
@@ -466,6 +470,9 @@ def run(prop: str, tier: str) -> int:
     rep.extra["operator_position_with_missing_operand"] = sorted(totals["cov"])
     rep.extra["actions"] = totals.get("actions")
     rep.extra["lines_of_other_property"] = totals.get("other", 0)
+    t1 = os.times()  # CPU seconds of this process and all its (TLC / replay worker) children
+    rep.extra["cpu_s"] = round(sum(t1[:4]) - sum(t_cpu[:4]), 1)
+    print(f"{prop} {tier}: cpu={rep.extra['cpu_s']}s (all processes)")
     if not any(f["clause"].startswith(f"{prop}.MC.") for f in rep.failures):
         for k in NEED[prop]:
             if not totals["exercised"].get(k):
